@@ -188,7 +188,7 @@ def lambda_sem(lam, opname):
         return isinstance(n, ast.Name) and i < len(params) and n.id == params[i]
     if len(params) == 1:
         if is_p(b, 0):
-            return 1, 'SUn UPos'
+            return 1, 'SUn UId'
         if isinstance(b, ast.UnaryOp) and type(b.op) in UNOPS and is_p(b.operand, 0):
             return 1, 'SUn ' + UNOPS[type(b.op)]
     elif len(params) == 2:
